@@ -24,6 +24,9 @@ import numpy as np
 from vlib import core
 
 TOL = 1.0e-9
+# components of the engine state that later iterations read (cf. Loop.takeSnap); `trunc_err` is reflected
+# separately (model flag carry_err) because today's code lacks it
+NEEDED_RESUME_KEYS = {'te': ['psi', 'evolved_time'], 'gs': ['psi', 'sweeps', 'init_env_data']}
 MAX_E_ERR = 1.0e-8
 
 
@@ -407,6 +410,15 @@ def evaluate(ctx, res, results, use_model=True):
             continue
         plain = r['plain']
         eps = plain['meas'].get('eps_error', [0.0])
+        # resume_data must hold every state component the loop machine's proof needs
+        need = NEEDED_RESUME_KEYS[job['kind']]
+        for k, keys in sorted(r['resume_keys'].items(), key=lambda kv: int(kv[0])):
+            res.extra.setdefault('resume_data_keys', {})[job['engine']] = keys
+            missing = sorted(set(need) - set(keys))
+            if missing:
+                res.fail('correspondence', 'resume.resume_data-lacks:' + ','.join(missing),
+                         '%s checkpoint %s: resume_data keys %r' % (job['engine'], k, keys), dict(base_case, checkpoint=int(k)))
+                break
         for k, real in sorted(r['resumed'].items(), key=lambda kv: int(kv[0])):
             k = int(k)
             case = dict(base_case, checkpoint=k)
